@@ -15,6 +15,7 @@ from rv.props import aoef_common as AC
 
 ANCHORS = ("io/aoef", "io/saver.py", "io/loader.py")
 THOROUGH_SHARDS = 12
+AMBIENT_TESTS = ["tests/test_io"]
 _spec = None
 CYCLES = 2
 
@@ -99,3 +100,8 @@ def replay(ctx, w):
     AC.HOOKS[:] = [_hook]
     s = w["spec"]
     judge(ctx, s["collection"], s["graph_seed"], s["knobs"], s["audio_dir"])
+
+
+def ambient_install():
+    AC.install()
+    AC.HOOKS[:] = [_hook]
